@@ -32,6 +32,6 @@ cp $SRC/m$K.diff $OUT/patch.diff; cp $DEMO $OUT/; cp $SRC/m$K.md $OUT/agent_note
 RT=$(mktemp -d /tmp/seedrepo-$ID-XXXX)
 rsync -a --exclude .git --exclude cmd /repo/ $RT/
 ( cd $RT && git apply $OUT/patch.diff ) || exit 2
-( cd /verif && VERIF_REPO=$RT VERIF_NO_EVIDENCE=1 bin/vcheck $P > $OUT/check.log 2>&1; echo "check_exit=$?" )
+( cd /verif && VERIF_REPO=$RT VERIF_NO_EVIDENCE=1 bin/vcheck ${CHECKP:-$P} > $OUT/check.log 2>&1; echo "check_exit=$?" )
 rm -rf $RT
-grep -E "^violation|^VIOLATION|^KNOWN|vcheck: $P" $OUT/check.log | cut -c1-400 | head -6
+grep -E "^violation|^VIOLATION|^KNOWN|vcheck: ${CHECKP:-$P}" $OUT/check.log | cut -c1-400 | head -6
